@@ -96,6 +96,7 @@ def fam_c13(rng, tier):
 
 STREAM_RULE = "conformant multi-call histories from the RFC-level generator (templates drawn from the library's type tables plus unknown types, supported widths, enterprise / variable-length / zero-length fields, 1-3 template records per set, options templates, paddings), encoded by the Lean specification writer Spec.enc"
 MUT_RULE = ", plus byte mutations of the encoded histories (truncation, length-word edits, bit flips, splices, extensions)"
+SS_RULE = "; bounded-exhaustive small histories (every sequence of <= 3 of 14-15 single-packet messages around template id 256 — two layouts of equal record size, an unknown-typed layout, an options template, rejected templates, data for each layout, a too-short body, a cut packet, a bystander id, a V5 packet — as separate calls or joined, then two probe data messages: a seeded sample in the quick tier, all 6540 in the thorough tier); size-threshold sweep (error remaining / variable-length values / padding at lengths around every power of two up to 2^16)"
 
 PROPS = {
     "C01": {"dev_families": lambda rng, tier: [sc for sc in gen.fam_extremal(rng, tier) if sc[0].startswith("extremal-chain") or sc[0].startswith("extremal-ipfix-records-2000")],
@@ -103,12 +104,12 @@ PROPS = {
             gen.fam_widths(rng, 9, sample=n(tier, 150, None)) + gen.fam_widths(rng, 10, sample=n(tier, 150, None)),
             "mutate_per": {"quick": 1, "thorough": 3}, "rule": STREAM_RULE + MUT_RULE + "; extremal families: IPFIX data set packed with 1-byte records (quick: 2000 and 20000, thorough: up to 65000), 4095 chained 16-byte IPFIX messages, 2730 chained empty V5 packets, V9 zero-size templates, headers announcing 65535 records/fields, templates with up to 4000 zero-length fields — always after a history that cached the attacker-chosen template"},
     "C02": {"oracle": "C02", "view": ["outcome", "pkts"], "families": fam_general, "mutate_per": {"quick": 2, "thorough": 4},
-            "rule": STREAM_RULE + ", random garbage with plausible version words" + MUT_RULE},
+            "rule": STREAM_RULE + ", random garbage with plausible version words" + MUT_RULE + SS_RULE},
     "C03": {"oracle": "C03", "view": ["outcome", "pkts"], "families": fam_fixed_all, "mutate_per": {"quick": 2, "thorough": 4},
             "also": ["C03spec"],
             "rule": "V5/V7 packets with all counts incl. 0, boundary field values, every protocol number 0..255, every truncation/mutation class; oracle = Cisco offsets + IANA names"},
-    "C04": {"mutate_per": {"quick": 1, "thorough": 2}, "oracle": "C04", "view": ["outcome", "pkts", "state"], "families": fam_v9, "rule": STREAM_RULE + " (V9 only)"},
-    "C05": {"mutate_per": {"quick": 1, "thorough": 2}, "oracle": "C05", "view": ["outcome", "pkts", "state"], "families": fam_ipfix, "rule": STREAM_RULE + " (IPFIX only)"},
+    "C04": {"mutate_per": {"quick": 1, "thorough": 2}, "oracle": "C04", "view": ["outcome", "pkts", "state"], "families": fam_v9, "rule": STREAM_RULE + " (V9 only)" + SS_RULE},
+    "C05": {"mutate_per": {"quick": 1, "thorough": 2}, "oracle": "C05", "view": ["outcome", "pkts", "state"], "families": fam_ipfix, "rule": STREAM_RULE + " (IPFIX only)" + SS_RULE},
     "C06": {"oracle": "C06", "view": ["outcome", "pkts", "state"], "families": fam_cache,
             "rule": "interleaved histories on several parser instances with colliding template ids, redefinitions, V5/V7 and disallowed-version frames, chained vs split delivery"},
     "C07": {"oracle": "C07", "view": ["outcome", "pkts", "state"], "families": fam_c07,
